@@ -7,8 +7,8 @@ from .ci_adapter import contains
 FIELDS = ["path", "mtime", "size", "volume_id", "type", "format", "arch", "disc_number", "disc_count", "checksums", "implant_md5",
           "bootable", "subvariant", "unified", "additional_variants"]
 PATHS = [{"p1": "Server/x86_64/iso/z-boot.iso", "p2": "Server/x86_64/iso/a-dvd.iso", "p3": "unified/m.iso", "p4": "Client/b.iso",
-          "p5": "Server/x86_64/iso/a-dvd2.iso", "p6": "0/first.iso", "p8": "x/p8.iso"},
-         {"p1": "b.iso", "p2": "a.iso", "p3": "B.iso", "p4": "a/a.iso", "p5": "a.iso.2", "p6": "_.iso", "p8": "p8"}]
+          "p5": "Server/x86_64/iso/a-dvd2.iso", "p6": "0/first.iso", "p8": "x/p8.iso", "p9": "Server/x86_64/iso/twin.iso"},
+         {"p1": "b.iso", "p2": "a.iso", "p3": "B.iso", "p4": "a/a.iso", "p5": "a.iso.2", "p6": "_.iso", "p8": "p8", "p9": "c.iso"}]
 VARS = [{"V1": "Server", "V2": "Client", "V-3": "Server-optional"}, {"V1": "b", "V2": "a", "V-3": "a-b"}]
 AV = {"none": [], "one": ["Client"], "two": ["Workstation", "Client"]}
 COMPOSES = [dict(label=None, final=False, ctype="production", respin=0), dict(label="RC-2.1", final=True, ctype="nightly", respin=3),
@@ -17,8 +17,8 @@ COMPOSES = [dict(label=None, final=False, ctype="production", respin=0), dict(la
 
 class Conc(object):
     def __init__(self, rot):
-        import productmd.common as C
-        import productmd.images as IM
+        from . import enums as C
+        IM = C
         self.rot = rot
         self.paths = PATHS[rot % 2]
         self.vars = VARS[(rot // 2) % 2]
@@ -31,6 +31,12 @@ class Conc(object):
 
     def fields(self, n, spec):
         j = int(n[1:])
+        own = j
+        if spec.get("twinof", n) != n:
+            # same identity as its twin (every identifying attribute), but its own path, mtime and checksums
+            f = self.fields(spec["twinof"], dict(spec, twinof=spec["twinof"], pathof=n))
+            f.update({"mtime": 1432300000 + j, "checksums": {"sha256": "%x" % j * 64}})
+            return f
         t = self.types[(self.rot * 6 + j) % len(self.types)]
         fmts = self.fmap[t] or self.allfmt
         return {"path": self.paths[spec.get("pathof", n)], "mtime": 1432300000 + j, "size": 1234 + j if spec["size"] == "small" else (1 << 33) + j,
@@ -137,6 +143,12 @@ def evaluate(case):
             fails.append("%s: writing the re-read manifest does not reproduce the file byte for byte" % what)
     except Exception as exc:
         fails.append("%s: re-read manifest cannot be written: %s: %s" % (what, type(exc).__name__, exc))
+    if case.get("viafile"):
+        def reload(p):
+            m3 = Images()
+            m3.load(p)
+            return m3.dumps()
+        fails += core.file_cycle(m, text, what, "images.json", reload=reload)
     if not fails and case.get("valid", True):
         # an already-written manifest is edited and written again: the new values must be in the file
         first = sorted(case["obj"], key=lambda c: (c["v"], c["a"]))[0]
@@ -178,6 +190,7 @@ def run(ctx):
         cases += [c for i, c in enumerate(gen(ctx, 3, 2)) if i % 4 == ctx.seed % 4]
     for i, c in enumerate(cases):
         c["rot"] = (i + ctx.seed) % 132
+        c["viafile"] = (i % 41 == 0)
     ctx.exhaustive = True
     ctx.evaluate(evaluate, cases, label="manifest", chunk=100, key=lambda c: core._digest([c["obj"], c["rot"]]))
 
